@@ -193,7 +193,21 @@ class CloseScn:
                     w.observe("ctl-exc", type(e).__name__, str(e)[:100])
             else:
                 chan = gw.remote_exec(WORKER_OBSERVER.format(spec=spec))
+                if P.get("gc"):
+                    # a cyclic-garbage channel may be finalized (and send its close frame) at any statement
+                    # of the sending path while a large frame of another channel goes out first
+                    from engine import instrument
+
+                    side = gw.remote_exec("for x in channel:\n    pass")
+                    g_ = gw.newchannel()
+                    cyc = [g_]
+                    cyc.append(cyc)
+                    del g_, cyc
+                    w.gc_mask = instrument.select(lambda m, q, l: (m == "gateway_base" and q in ("BaseGateway._send", "Message.to_io", "Channel.send", "Popen2IO.write", "SocketIO.write", "Channel.close")) or (m == "gateway_io" and q.startswith("ProxyIO.write")))
+                    w.gc_proc = S.proc
                 w.exploring = True
+                if P.get("gc"):
+                    side.send(b"x" * 70000)
                 kind = P["kind"]
                 if kind == "drop-cb":
                     chan.setcallback(lambda x: None)
@@ -569,6 +583,13 @@ def run(tier: str, only=None) -> int:
                 continue
             P = dict(H, transport=tr, backend=be)
             harness.run_exploration(rep, PID, name, CloseScn, P, {"ps": 1, "free": 0}, max_execs=cap)
+    for tr in ("popen", "socket", "via"):
+        for kind in ("close", "drop"):
+            name = f"close-gc/{kind}:{tr}"
+            if only and only not in name:
+                continue
+            P = {"dir": "up", "kind": kind, "n": 2, "r": 1, "w": 1, "gc": True, "transport": tr, "backend": "thread"}
+            harness.run_exploration(rep, PID, name, CloseScn, P, {"ps": 0, "env": 1, "free": 0}, max_execs=cap)
     for how in LateCloseScn.PEER:
         for tr, be in (("popen", "thread"), ("socket", "thread"), ("via", "thread"), ("popen", "main_thread_only")):
             if (tr, be) != ("popen", "thread") and tier == "quick" and how not in ("peer-drop-cb", "gateway-exit"):
